@@ -79,3 +79,26 @@ Example C04_squash_without_equal_right_origins_changes_units :
   blk_can_squash blk_ex_ro_a blk_ex_ro_b = false /\
   units_of_block (blk_squash blk_ex_ro_a blk_ex_ro_b) <> units_of_block blk_ex_ro_a ++ units_of_block blk_ex_ro_b.
 Proof. split; [exact blk_ex_ro_rejected | apply blk_ex_ro_lost]. Qed.
+
+(* ---- appended: the block-level transcription of Item::integrate (Crdt/YataBlocks.v) ---- *)
+From YV Require Import Gen.Consts Codec.Varint Codec.AnyCodec Codec.IdSetCodec Crdt.Blocks Crdt.YataBlocks Crdt.YataBlocksProofs.
+(* Item::integrate on blocks places every unit of the incoming block where the unit-level integration places it (so the theorems above, stated on units, speak about what the block-level code does)   [Crdt/YataBlocksProofs.v: yib_integrate_refines_units] *)
+Theorem C04_block_integration_refines_unit_integration : forall s b pdel s',
+  yib_seq_ok s = true -> yib_fresh s b = true -> yib_psub b = None ->
+  yib_integrate_off s b 0 pdel = yib_ok s' ->
+  yib_expand s' = fold_left yata_insert (yib_ditems (yib_arrival b pdel)) (yib_expand s).
+Proof. exact YV.Crdt.YataBlocksProofs.yib_integrate_refines_units. Qed.
+
+(* no unit moves, appears or disappears when a block is split   [Crdt/YataBlocksProofs.v: yib_splits_are_invisible] *)
+Theorem C04_block_splits_are_invisible : forall s1 b s2 k l r,
+  blk_wf (yib_b b) = true -> blk_split (yib_b b) k = Some (l, r) ->
+  yib_expand (s1 ++ yib_mk l (yib_del b) :: yib_mk r (yib_del b) :: s2) = yib_expand (s1 ++ b :: s2).
+Proof. exact YV.Crdt.YataBlocksProofs.yib_splits_are_invisible. Qed.
+
+(* placed where inserted, however the receiving replica has its blocks cut   [Crdt/YataBlocksProofs.v: yib_position_independent_of_blocking] *)
+Theorem C04_position_does_not_depend_on_the_blocking : forall s1 s2 b pdel r1 r2,
+  yib_seq_ok s1 = true -> yib_seq_ok s2 = true -> yib_expand s1 = yib_expand s2 ->
+  yib_fresh s1 b = true -> yib_fresh s2 b = true -> yib_psub b = None ->
+  yib_integrate_off s1 b 0 pdel = yib_ok r1 -> yib_integrate_off s2 b 0 pdel = yib_ok r2 ->
+  yib_expand r1 = yib_expand r2.
+Proof. exact YV.Crdt.YataBlocksProofs.yib_position_independent_of_blocking. Qed.
